@@ -14,7 +14,7 @@ LEVEL = "fault_enumeration"
 RULE = (
     "A history over one build directory is drawn as a sequence of rounds; each round makes 1-3 changes out of {add source, modify source "
     "(same name, new content), rename source (new codepoints), remove source (>= 1 kept), change option (color_format among glyf_colr_1, "
-    "glyf_colr_0, glyf, picosvg, untouchedsvg, cbdt; upem; reuse_tolerance; clip_to_viewbox; clipbox_quantization; keep_glyph_names; "
+    "glyf_colr_0, glyf, picosvg, untouchedsvg, cbdt (half of the COLR histories given by TOML build a two-master variable font); upem; reuse_tolerance; clip_to_viewbox; clipbox_quantization; keep_glyph_names; "
     "bitmap_resolution; use_pngquant; use_zopflipng)} and then invokes the real nanoemoji CLI, possibly with a fault: target in {picosvg, "
     "write_glyphmap, write_fea, write_part_file, write_combined_part_files, write_font, pngquant module, zopfli.png, resvg binary, the driver} "
     "x mode in {exit != 0 before writing, truncated output then exit != 0, truncated output then SIGKILL, driver killed before ninja, driver "
@@ -116,7 +116,11 @@ def history(draw, tier):
         steps.append({"op": "invoke", "fault": fault})
         if fault:
             steps.append({"op": "invoke", "fault": None})
-    return {"steps": steps, "via_toml": draw(st.booleans())}
+    via_toml = draw(st.booleans())
+    vf = via_toml and opts.get("color_format") in ("glyf_colr_1", "glyf_colr_0") and draw(st.booleans())
+    if vf:  # a variable font is a COLR font throughout
+        steps = [x for x in steps if not (x["op"] == "option" and x["key"] == "color_format")]
+    return {"steps": steps, "via_toml": via_toml, "vf": vf}
 
 
 def cases(tier):
@@ -145,6 +149,13 @@ def enumerate_cases(tier):
         faults.append(("glyf_colr_1", "driver:" + mode))
         faults.append(("picosvg", "driver:" + mode))
     yield from _edit_rows()
+    # a two-master variable font: options that touch no intermediate file, a source edit, an option and an edit together
+    a, b = [0x1F600], [0x1F601, 0x200D, 0x1F602]
+    base = [{"op": "option", "key": "color_format", "value": "glyf_colr_1"}, {"op": "add", "cps": a, "svg": SVG_A}, {"op": "add", "cps": b, "svg": SVG_B}, {"op": "invoke", "fault": None}]
+    yield {"steps": base + [{"op": "option", "key": "family", "value": "Second Family"}, {"op": "option", "key": "width", "value": 900}, {"op": "invoke", "fault": None},
+                            {"op": "modify", "cps": a, "svg": SVG_C}, {"op": "invoke", "fault": None}], "via_toml": True, "vf": True}
+    yield {"steps": base + [{"op": "option", "key": "upem", "value": 2048}, {"op": "invoke", "fault": None}, {"op": "option", "key": "keep_glyph_names", "value": True},
+                            {"op": "modify", "cps": b, "svg": SVG_A}, {"op": "invoke", "fault": None}], "via_toml": True, "vf": True}
     for i, (fmt, fault) in enumerate(faults):
         opt = [{"op": "option", "key": "color_format", "value": fmt}]
         add = [{"op": "add", "cps": [0x1F600], "svg": SVG_A}, {"op": "add", "cps": [0x1F601, 0x200D, 0x1F602], "svg": SVG_B}]
@@ -204,7 +215,7 @@ def flags_for(opts):
     return out
 
 
-def toml_for(opts):
+def toml_for(opts, vf=False):
     lines = []
     o = dict(opts)
     if o.get("color_format") in ("cbdt", "sbix") and "bitmap_resolution" not in o:
@@ -217,14 +228,21 @@ def toml_for(opts):
         else:
             lines.append("%s = %s" % (k, val))
     lines += ["[axis.wght]", 'name = "Weight"', "default = 400", "[master.regular]", 'style_name = "Regular"', 'srcs = ["src/*.svg"]', "[master.regular.position]", "wght = 400"]
+    if vf:
+        # a second master (a copy of the sources, kept in step by invoke): the font goes through the per-master UFO and merge steps
+        lines += ["[master.bold]", 'style_name = "Bold"', 'srcs = ["src_bold/*.svg"]', "[master.bold.position]", "wght = 700"]
     return "\n".join(lines) + "\n"
 
 
-def invoke(ws, root, opts, via_toml, fault=None):
+def invoke(ws, root, opts, via_toml, fault=None, vf=False):
     srcs = sorted(os.listdir(os.path.join(root, "src")))
+    if vf:
+        bold = os.path.join(root, "src_bold")
+        shutil.rmtree(bold, ignore_errors=True)
+        shutil.copytree(os.path.join(root, "src"), bold)  # copy2: modification times are kept
     if via_toml:
         with open(os.path.join(root, "font.toml"), "w") as f:
-            f.write(toml_for(opts))
+            f.write(toml_for(opts, vf))
         args = ["nanoemoji", "--build_dir", "build", "font.toml"]
     else:
         args = ["nanoemoji", "--build_dir", "build"] + flags_for(opts) + ["src/" + s for s in srcs]
@@ -237,7 +255,10 @@ def judge(case):
     v = Verdict()
     steps = case["steps"]
     via_toml = case["via_toml"]
+    vf = bool(case.get("vf")) and via_toml
     v.cls("config:" + ("toml" if via_toml else "flags"))
+    if vf:
+        v.cls("variable-font")
     opts = {}
     edits_since_success = 0
     fault_or_option_since_success = False
@@ -272,7 +293,7 @@ def judge(case):
             else:
                 fault = s["fault"]
                 ever_built.update(os.listdir(os.path.join(root, "src")))
-                rc, out, fonts = invoke(ws, root, opts, via_toml, fault)
+                rc, out, fonts = invoke(ws, root, opts, via_toml, fault, vf=vf)
                 fired = ws.fault_fired()
                 v.extra_evals += 1
                 if fault:
@@ -288,7 +309,7 @@ def judge(case):
                 shutil.rmtree(croot, ignore_errors=True)
                 os.makedirs(croot)
                 shutil.copytree(os.path.join(root, "src"), os.path.join(croot, "src"))
-                crc, cout, cfonts = invoke(clean, croot, opts, via_toml, None)
+                crc, cout, cfonts = invoke(clean, croot, opts, via_toml, None, vf=vf)
                 v.extra_evals += 1
                 if rc != 0:
                     if crc != 0:
